@@ -13,7 +13,8 @@ checks = {
  "C07": ("order", SWEEP + "; alphabet: competing same-typed named inputs / competing converters in every form x every permutation of the option list; oracle: which input was converted / which converter ran", "6 C07"),
  "C09": ("hist", "exhaustive enumeration of all operation sequences (Call/Redefine on shared Func, converter and option objects) up to depth 3/4 x order exploration; oracle: differential against the same history with the Redefine steps deleted, and empty call log during every Redefine", "6 C09"),
  "C10": ("order", SWEEP + "; oracle: differential between Convert and Call of a harness-built func(T) T under the replayed choice sequence", "6 C10"),
- "C11": ("hist", "exhaustive enumeration of all call/Redefine sequences up to depth 3/4 over 8 forms of a shared run-once converter x order exploration; oracle: differential against an ordinary function whose body memoizes (reference model of run-once) + execution count", "6 C11"),
+ "C11": ("sched", "sequential part: exhaustive enumeration of all call/Redefine sequences up to depth 3/4 over 8 forms of a shared run-once converter x order exploration, differential against an ordinary function whose body memoizes (reference model of run-once); concurrent part: every thread interleaving within the preemption bound under a hand-written cooperative scheduler over hooked shared-memory accesses/body yields/lock acquires (body count <= 1, outcome equals some serial order), plus a free-running -race pass", "6 C11"),
+ "C12": ("sched", "stateless DFS over thread schedules with preemption bound (controlled cooperative scheduler over access hooks, body yields and shimmed sync.Mutex acquires of the real library) with vector-clock race detection on hooked locations and a serial-order outcome oracle; plus a separate free-running pass of the same bodies on the plain build under Go's race detector", "6 C12"),
  "C08": ("order", SWEEP + " over Redefine scenarios; oracle: filter/resupply/callability + differential against the original function", "6 C08"),
  "C14": ("api", "exhaustive enumeration of function signatures (positional lists, marker structs with every field-tag variant, pointer forms, error positions, rejected shapes) on the real NewFunc; oracle: value list computed from the signature description", "6 C14"),
  "C15": ("api", "exhaustive enumeration of value lists through NewValueSet/accessors/Signature round trip, and of BuildFunc input/output lists x 3-call histories compared with an ordinary function of the same signature", "6 C15"),
@@ -30,6 +31,7 @@ for i in range(1, 21):
     if pid not in checks:
         todo[pid] = "check not built yet (build round in progress)"
 LEVEL_TEXT = {
+ "sched": "Stateless model checking of the implementation under a controlled scheduler: 2-3 logical threads performing 1-2 operations each on shared targets, converters and option values; every schedule within the preemption bound (2 quick / 3 thorough; scheduling points at hooked accesses of classes that have a location touched by two threads with a write, at user-body yields and at lock acquires) is executed; per execution: happens-before race detection on hooked locations, deadlock/livelock/panic detection, and comparison of each thread's outcome with its outcomes in all serial orders. Memory the hooks cannot name (reflect writes, slice backing arrays, map internals) is covered by a separate free-running -race pass, which is exhaustive over the case alphabet but not over schedules.",
  "hist": "Bounded exhaustive model checking over histories: every operation sequence up to the stated depth over a fixed menu is executed on real shared objects (fresh per history), under sorted/reversed order and (for short histories) every one-deviation order; oracles are differential between two ways of reaching the same state.",
  "api": "Bounded exhaustive model checking of the API surface: every case of a closed-form enumeration (stated in the evidence) is executed on the real library, under sorted and globally reversed map order, and compared with a reference computed from the case description.",
  "graph": "Bounded exhaustive model checking of internal/graph: every digraph of the stated size and weight alphabet is run through the real algorithm under every map-iteration order (all orders for n<=3; within the stated deviation bound otherwise) and compared with a textbook reference on every execution.",
@@ -48,6 +50,7 @@ man = {
  },
  "engines": [
   {"name": "vinst", "path": "vinst/", "serves_properties": sorted(checks), "kind_free_text": "AST instrumenter emitting a build overlay (no edits to /repo)"},
+  {"name": "sched", "path": "vrt/sched.go, vrt/vsync/, harness/conc.go, harness/racepass.go", "serves_properties": ["C11", "C12"], "kind_free_text": "cooperative scheduler + preemption-bounded DFS over schedules of the real library; vector-clock conflict detection; sync shims; separate -race pass"},
   {"name": "hist", "path": "harness/hist.go", "serves_properties": ["C09", "C11"], "kind_free_text": "breadth-first enumeration of operation sequences on shared objects; successors by replay on fresh objects"},
   {"name": "api", "path": "harness/api.go, harness/api2.go", "serves_properties": ["C14", "C15", "C16", "C17"], "kind_free_text": "exhaustive case enumeration against spec-derived references, in-process"},
   {"name": "graph", "path": "harness/graphcheck.go", "serves_properties": ["C18", "C20"], "kind_free_text": "exhaustive small-graph enumeration x order exploration against reference algorithms"},
